@@ -87,6 +87,10 @@ def _enabled_branches(upd):
         # path rules
         if isinstance(core, (ast.Subscript, ast.Name)) and any(
                 isinstance(x, ast.BinOp) and isinstance(x.op, ast.BitAnd)
+                or isinstance(x, ast.AugAssign) and isinstance(
+                    x.op, ast.BitAnd)
+                or isinstance(x, ast.Call) and (call_name(x) or "").endswith(
+                    "logical_and")
                 for x in ast.walk(n)):
             en = (n, neg)
             break
@@ -442,18 +446,39 @@ def r33(ctx, repo, upd):
                     s.targets[0].value) == inv["all"]:
                 return s
         return None
-    a = all_assign(en_body)
-    if a is None:
-        raise AnalysisError("Filter.update: assignment of `all` lost")
     ops = set()
 
     def collect(e):
         if isinstance(e, ast.BinOp) and isinstance(e.op, ast.BitAnd):
             collect(e.left)
             collect(e.right)
+        elif isinstance(e, ast.Call) and (call_name(e) or "").endswith(
+                "logical_and") and len(e.args) == 2:
+            collect(e.args[0])
+            collect(e.args[1])
         else:
             ops.add(arrs.get(txt(e), txt(e)))
-    collect(a.value)
+    a = all_assign(en_body)
+    all_name = inv["all"]
+    # the conjunction may be built in steps: all[:] = a & b ; all &= c ; or
+    # np.logical_and(a, b, out=all)
+    for s_ in en_body:
+        if isinstance(s_, ast.Expr) and isinstance(s_.value, ast.Call) and (
+                call_name(s_.value) or "").endswith("logical_and"):
+            out_ = kwarg(s_.value, "out", 2)
+            if out_ is not None and txt(out_) == all_name:
+                if a is None:
+                    a = s_
+                collect(ast.Call(func=s_.value.func,
+                                 args=s_.value.args[:2], keywords=[]))
+        elif isinstance(s_, ast.AugAssign) and isinstance(
+                s_.op, ast.BitAnd) and txt(s_.target) in (
+                all_name, all_name + "[:]"):
+            collect(s_.value)
+    if a is None:
+        raise AnalysisError("Filter.update: assignment of `all` lost")
+    if isinstance(a, ast.Assign):
+        collect(a.value)
     want = {"box", "invalid", "polygon", "self.manual"}
     ctx.ob("R3.3", ops == want,
            "all = box & invalid & polygon & manual" if ops == want else
@@ -534,13 +559,50 @@ def r33(ctx, repo, upd):
               and any(isinstance(x, ast.AugAssign) for x in walk(n))]
     ok = False
     if inv_if:
-        t = txt(inv_if[0])
-        ok = "isinf" in t and "isnan" in t and any(
-            isinstance(lp, ast.For) and is_self_attr(lp.iter, "features")
-            for lp in walk(inv_if[0]))
-        aug = [x for x in walk(inv_if[0]) if isinstance(x, ast.AugAssign)]
-        ok = ok and any(isinstance(x.value, ast.UnaryOp) and isinstance(
-            x.value.op, ast.Invert) for x in aug)
+        # what is AND-ed into the accumulator, evaluated on the four value
+        # classes of a float: kept for finite values, dropped for nan/±inf
+        aug = [x for x in walk(inv_if[0]) if isinstance(x, ast.AugAssign)
+               and isinstance(x.op, ast.BitAnd)]
+        loops = [lp for lp in walk(inv_if[0]) if isinstance(lp, ast.For)
+                 and is_self_attr(lp.iter, "features")]
+
+        def ev(e, cls, fn):
+            if isinstance(e, ast.UnaryOp) and isinstance(
+                    e.op, (ast.Invert, ast.Not)):
+                return not ev(e.operand, cls, fn)
+            if isinstance(e, ast.BinOp) and isinstance(e.op, ast.BitOr):
+                return ev(e.left, cls, fn) or ev(e.right, cls, fn)
+            if isinstance(e, ast.BinOp) and isinstance(e.op, ast.BitAnd):
+                return ev(e.left, cls, fn) and ev(e.right, cls, fn)
+            if isinstance(e, ast.Call):
+                nm = (call_name(e) or "").split(".")[-1]
+                if nm == "isnan":
+                    return cls == "nan"
+                if nm == "isinf":
+                    return cls in ("+inf", "-inf")
+                if nm == "isposinf":
+                    return cls == "+inf"
+                if nm == "isneginf":
+                    return cls == "-inf"
+                if nm == "isfinite":
+                    return cls == "finite"
+                if nm in ("logical_or", "logical_and") and len(e.args) == 2:
+                    a_, b_ = (ev(x, cls, fn) for x in e.args)
+                    return (a_ or b_) if nm == "logical_or" else (a_ and b_)
+                if nm in ("logical_not", "invert") and len(e.args) == 1:
+                    return not ev(e.args[0], cls, fn)
+            if isinstance(e, ast.Name):
+                d = [n_ for n_ in walk(fn) if isinstance(n_, ast.Assign)
+                     and len(n_.targets) == 1 and txt(n_.targets[0]) == e.id]
+                if len(d) == 1:
+                    return ev(d[0].value, cls, fn)
+            raise AnalysisError("Filter.update: invalid-event mask "
+                                f"`{short(e, 40)}` cannot be evaluated")
+        if aug and loops:
+            keeps = {c: ev(aug[0].value, c, inv_if[0])
+                     for c in ("finite", "nan", "+inf", "-inf")}
+            ok = keeps == {"finite": True, "nan": False, "+inf": False,
+                           "-inf": False}
     ctx.ob("R3.3", ok, "invalid-event removal excludes inf and nan of every "
            "scalar feature when switched on" if ok else
            "invalid-event removal no longer covers inf and nan of all "
@@ -830,7 +892,21 @@ def r35(ctx, repo, upd):
 
 def r36(ctx, repo):
     rs = repo.func(FILT, "Filter.reset")
+    rs = canon(repo, FILT, rs)
     cleared = {txt(c.func.value) for c in find_calls(rs, attr="clear")}
+    # re-binding to a fresh empty container is a reset as well
+    for n in walk(rs):
+        if isinstance(n, ast.Assign):
+            v = n.value
+            empty = (isinstance(v, (ast.Dict, ast.List, ast.Set)) and not (
+                getattr(v, "keys", None) or getattr(v, "elts", None))) or (
+                isinstance(v, ast.Call) and call_name(v) in (
+                    "dict", "list", "set", "collections.OrderedDict",
+                    "OrderedDict") and not v.args and not v.keywords)
+            if empty:
+                for t in n.targets:
+                    if is_self_attr(t):
+                        cleared.add(txt(t))
     for attr in ("_box_filters", "_poly_filters", "_array_props"):
         ok = f"self.{attr}" in cleared
         ctx.ob("R3.6", ok, f"reset clears {attr}" if ok else
@@ -1202,6 +1278,19 @@ MUTANTS = [
 ]
 
 TWINS = [
+    ("conjunction built in steps", FILT,
+     ("            arr_all[:] = arr_box & arr_invalid & arr_polygon & self.manual\n",
+      "            np.logical_and(arr_box, arr_invalid, out=arr_all)\n"
+      "            arr_all &= arr_polygon\n"
+      "            arr_all &= self.manual\n")),
+    ("accumulator reset with fill()", FILT,
+     ("        arr_box[:] = True\n", "        arr_box.fill(True)\n")),
+    ("invalid events via isfinite", FILT,
+     ("                invalid = np.isinf(data) | np.isnan(data)\n"
+      "                arr_invalid &= ~invalid\n",
+      "                arr_invalid &= np.isfinite(data)\n")),
+    ("reset re-binds the memo containers", FILT,
+     ("        self._box_filters.clear()\n", "        self._box_filters = {}\n")),
     ("empty input returned early", POLY,
      ("        f = points_in_poly(points=points, verts=self.points)\n",
       "        if datax.shape[0] == 0:\n"
